@@ -38,7 +38,7 @@ def run(chk):
         "success paths emit EOF; buffered headers are flushed once."
     )
     chk.not_decided = "equality of method / path / query / headers / body end to end, segmentation independence of the composition beyond the resumable-parser rules shared with C03 (C02.rx.*), compression transparency, Expect: 100-continue sequencing (the bulk of the property)."
-    chk.explanation += " Also decided: the request-head parser's resumable-state rules (C02.rx.*, shared with C03), the multipart declared size (shared with C19) and `no body data on a response that must not have a body` (shared with C04) are evaluated here too."
+    chk.explanation += " Also decided: the request-head parser's resumable-state rules (C02.rx.*, shared with C03), the multipart declared size (shared with C19) and `no body data on a response that must not have a body` (shared with C04) are evaluated here too. After the defect hunt: the client announces chunked framing whenever its writer will chunk-frame, and a caller-supplied Transfer-Encoding header switches the writer too."
     hmod = repo.module(HELPERS)
     # ---- tables ---------------------------------------------------------------------------------------------
     try:
